@@ -901,18 +901,18 @@ class AggregateAssignmentMatrixGenerator:
         if n_src_total == 0 or n_tgt_total == 0:
             return 1
 
-        # 1 outgoing connection
-        if len(n_src_conn) == 1 and n_src_conn[0] == 1:
-            n_mat = 0
-            for n_tgt in n_tgt_conn:
-                if n_tgt > 0:
-                    n_mat += 1
-            return n_mat
-
         # Get max conn
         max_conn = self.get_max_conn_mat(existence)
         if is_switched:
             max_conn = max_conn.T
+
+        # 1 outgoing connection
+        if len(n_src_conn) == 1 and n_src_conn[0] == 1:
+            n_mat = 0
+            for i_tgt, n_tgt in enumerate(n_tgt_conn):
+                if n_tgt > 0 and max_conn[0, i_tgt] > 0:
+                    n_mat += 1
+            return n_mat
 
         # One of the src nodes has same nr of target connections
         for i_src, n_src in enumerate(n_src_conn):
